@@ -156,6 +156,12 @@ impl Coll for KeyC {
             "fleby" => def2s(self.0.first_less_or_equal_by(a[0] as i32, DEFAULT_VAL, cmp_q(a[1]))),
             "get" => opt2s(self.0.get_value(a[0] as i32, IK::probe(a[1] as i32))),
             "export" => { let (v, cap) = self.0.verif_export(a[0] as i32); format!("{} cap={}", ints(&v), cap) }
+            // the public, consuming `into_ordered_vec` itself (the history ends here: a new tree takes its place)
+            "consume" => {
+                let old = std::mem::replace(&mut self.0, KeyExpTree::new(8));
+                let v = old.into_ordered_vec(a[0] as i32);
+                format!("{} cap={}", ints(&v), v.capacity())
+            }
             "clear" => { self.0.clear(); "ok".into() }
             "isempty" => self.0.is_empty().to_string(),
             _ => panic!("bad op {:?}", op),
